@@ -272,6 +272,98 @@ def body(ctx: Ctx, p: dict) -> None:
     ctx.case(p, nontrivial=bool(has_inv_in_window and changed), classes=classes)
 
 
+# ---------------------------------------------------------------------------------------------------------------
+# pipeline twin: the disparity datasets a real pipeline hands to its filter steps (left and right)
+# ---------------------------------------------------------------------------------------------------------------
+def ref_bilateral(masked, ss, sc):
+    """odd windows only; pixels whose window does not fit keep their value"""
+    ny, nx = masked.shape
+    win = min(ny, nx, int(3 * ss + 1))
+    off = win // 2
+    out = masked.astype(np.float64).copy()
+    if win % 2 == 0:
+        return None
+    ii, jj = np.mgrid[-off:off + 1, -off:off + 1]
+    ws = np.exp(-0.5 * ((ii ** 2 + jj ** 2) / ss ** 2))
+    for i in range(off, ny - off):
+        for j in range(off, nx - off):
+            if np.isnan(masked[i, j]):
+                continue
+            w = masked[i - off:i + off + 1, j - off:j + off + 1].astype(np.float64)
+            fin = ~np.isnan(w)
+            wt = np.where(fin, ws * np.exp(-0.5 * ((np.where(fin, w, 0) - w[off, off]) / sc) ** 2), 0.0)
+            out[i, j] = (wt * np.where(fin, w, 0.0)).sum() / wt.sum()
+    return out
+
+
+@st.composite
+def pipeline_cases(draw):
+    from .. import gen
+
+    pair = draw(gen.image_pair(min_rows=9, max_rows=14, min_cols=10, max_cols=18, max_val=9, masks=True))
+    steps = draw(gen.legal_pipeline(validation="maybe", refinement=True, max_post=5, windows=(1, 3)))
+    if not any(n.split(".")[0] == "filter" for n, _ in steps):
+        steps.append(["filter.z", draw(gen.filter_cfg())])
+    a = draw(st.integers(-4, 1))
+    return {"pair": pair, "pipeline": steps, "disp": [a, a + draw(st.integers(0, 4))]}
+
+
+def pipeline_body(ctx: Ctx, p: dict) -> None:
+    from .. import drive, gen
+
+    kw = gen.pair_kwargs(p["pair"])
+    pipe = gen.pipe_dict(p["pipeline"])
+    caps = []
+
+    def snap(machine):
+        out = {}
+        for side, dsp in (("left", machine.left_disparity), ("right", machine.right_disparity)):
+            if dsp is not None and "disparity_map" in dsp:
+                out[side] = (dsp["disparity_map"].data.copy(), dsp["validity_mask"].data.copy())
+        return out
+
+    def before(machine, step, kind):
+        if kind == "filter":
+            caps.append({"step": step, "before": snap(machine)})
+
+    def after(machine, step, kind):
+        if kind == "filter":
+            caps[-1]["after"] = snap(machine)
+
+    drive.run_pipeline(pipeline=pipe, disp=tuple(p["disp"]), spy=drive.Spy(before=before, after=after), **kw)
+    changed = near = False
+    for c in caps:
+        cfg = pipe[c["step"]]
+        for side, (d0, m0) in c["before"].items():
+            d1, m1 = c["after"][side]
+            tag = f"{side} step {c['step']} {cfg}"
+            if not np.array_equal(m0, m1):
+                ctx.violation("C10/validity-mask-changed", tag)
+            inv = ((m0 & INV) != 0) | ~np.isfinite(d0)
+            same = (d0 == d1) | (np.isnan(d0) & np.isnan(d1))
+            if not same[inv].all():
+                ctx.violation("C10/invalid-pixel-disparity-changed", tag)
+            masked = np.where(inv, np.nan, d0).astype(np.float32)
+            if cfg["filter_method"] == "median":
+                exp = np.where(inv, d0, ref_median(masked, cfg.get("filter_size", 3)))
+            else:
+                e = ref_bilateral(masked, float(cfg.get("sigma_space", 6.0)), float(cfg.get("sigma_color", 2.0)))
+                if e is None:
+                    ctx.unspecified += 1
+                    continue
+                exp = np.where(inv, d0, e).astype(np.float32)
+            ok = close(d1, np.asarray(exp, dtype=np.float32), rel=1e-5, abs_=1e-5)
+            if not ok.all():
+                r, cc = np.argwhere(~ok)[0]
+                ctx.violation(f"C10/{cfg['filter_method']}-wrong", f"{tag} pixel {(int(r), int(cc))}: got {d1[r, cc]} expected {exp[r, cc]}")
+            changed = changed or bool((~same).any())
+            near = near or bool(inv.any() and (~inv).any())
+            ctx.judged += int((~inv).sum())
+    ctx.case(p, nontrivial=bool(changed and near), classes=[f"filters={len(caps)}"] +
+             (["right-side"] if any("right" in c["before"] for c in caps) else []))
+
+
 CHECKS = [
-    Check("direct", body, strategy=cases, budget={"quick": (16, 90), "thorough": (16, 3000)}),
+    Check("direct", body, strategy=cases, budget={"quick": (12, 90), "thorough": (16, 3000)}),
+    Check("pipeline", pipeline_body, strategy=pipeline_cases, budget={"quick": (4, 25), "thorough": (16, 500)}),
 ]
